@@ -6,6 +6,7 @@ require (
 	github.com/decred/dcrd/dcrec/secp256k1/v4 v4.4.1
 	github.com/mr-tron/base58 v1.2.0
 	github.com/nspcc-dev/neo-go v0.121.0
+	github.com/pierrec/lz4 v2.6.1+incompatible
 	go.uber.org/zap v1.27.1
 )
 
@@ -32,7 +33,6 @@ require (
 	github.com/nspcc-dev/neofs-sdk-go v1.0.0-rc.21 // indirect
 	github.com/nspcc-dev/rfc6979 v0.2.4 // indirect
 	github.com/nspcc-dev/tzhash v1.8.4 // indirect
-	github.com/pierrec/lz4 v2.6.1+incompatible // indirect
 	github.com/pmezard/go-difflib v1.0.0 // indirect
 	github.com/prometheus/client_golang v1.23.2 // indirect
 	github.com/prometheus/client_model v0.6.2 // indirect
